@@ -578,19 +578,29 @@ pub fn run_chains(case: &ChainCase, st: &mut Stats) -> CaseResult {
     let mut ref_m: Vec<Option<bool>> = vec![None; n];
     let ok0 = naive_fixpoint(&clauses, &mut ref_m);
     let solver = SATSolver::new(cnf.clone());
+    if solver.is_none() && ok0 {
+        // more than unit propagation: allowed if there really is no model (the harness's own search decides)
+        let mut budget = 300u64;
+        return match dpll(&clauses, &mut ref_m.clone(), &mut budget) {
+            Some(true) => fail("C09/unsat-reported-but-satisfiable", format!("{}-variable chain CNF (seed {}): SATSolver::new returned UNSAT but the CNF has a model", n, case.seed)),
+            _ => {
+                st.bump("chains.unsat_beyond_unit_propagation_or_undecided");
+                Ok(())
+            }
+        };
+    }
     ensure!(
-        solver.is_some() == ok0,
-        if ok0 { "C09/unsat-reported-but-satisfiable" } else { "C09/falsified-clause-not-reported" },
-        "{}-variable chain CNF: SATSolver::new returned {} but unit propagation from the unit clauses {}",
-        n,
-        if solver.is_some() { "a solver" } else { "UNSAT" },
-        if ok0 { "reaches a fixpoint without conflict" } else { "falsifies a clause" }
+        solver.is_some() || !ok0,
+        "C09/falsified-clause-not-reported",
+        "{}-variable chain CNF: SATSolver::new returned a solver but unit propagation from the unit clauses falsifies a clause",
+        n
     );
     let Some(mut s) = solver else {
         st.bump("chains.unsat_at_construction");
         return Ok(());
     };
     let compare = |s: &SATSolver, model: &[Option<bool>], ref_m: &[Option<bool>], when: &str| -> CaseResult {
+        let mut more = false;
         for v in 0..n {
             ensure!(
                 s.is_set(VarLabel::new_usize(v)) == model[v].is_some(),
@@ -601,6 +611,16 @@ pub fn run_chains(case: &ChainCase, st: &mut Stats) -> CaseResult {
                 s.is_set(VarLabel::new_usize(v)),
                 model[v]
             );
+            if let (Some(a), None) = (model[v], ref_m[v]) {
+                // more than unit propagation gives: allowed if entailed (the fixpoint plus the opposite value has no model)
+                let mut m2 = ref_m.to_vec();
+                m2[v] = Some(!a);
+                let mut budget = 300u64;
+                if dpll(&clauses, &mut m2, &mut budget) != Some(true) {
+                    more = true;
+                    continue;
+                }
+            }
             if model[v] != ref_m[v] {
                 return fail(
                     if model[v].is_none() { "C09/unit-left-unpropagated" } else { "C09/assigned-literal-not-entailed" },
@@ -616,6 +636,10 @@ pub fn run_chains(case: &ChainCase, st: &mut Stats) -> CaseResult {
                     ),
                 );
             }
+        }
+        if more {
+            // the solver knows more than unit propagation gives: the flag is the flag of its own assignment
+            return Ok(());
         }
         ensure!(
             s.is_sat() == sat_flag(ref_m),
@@ -648,13 +672,21 @@ pub fn run_chains(case: &ChainCase, st: &mut Stats) -> CaseResult {
         let ok = naive_fixpoint(&clauses, &mut next_ref);
         let res = s.decide(Literal::new(VarLabel::new_usize(v), p));
         let when = format!("decision #{} x{} = {} (chain position {})", k, v, p, i);
+        if matches!(res, DecisionResult::UNSAT) && ok {
+            let mut budget = 300u64;
+            return match dpll(&clauses, &mut next_ref.clone(), &mut budget) {
+                Some(true) => fail("C09/unsat-reported-but-satisfiable", format!("{} ({}-variable chain CNF, seed {}): decide returned UNSAT but CNF and decisions have a model", when, n, case.seed)),
+                _ => {
+                    st.bump("chains.unsat_beyond_unit_propagation_or_undecided");
+                    Ok(())
+                }
+            };
+        }
         ensure!(
-            matches!(res, DecisionResult::UNSAT) != ok,
-            if ok { "C09/unsat-reported-but-satisfiable" } else { "C09/falsified-clause-not-reported" },
-            "{}: decide returned {} but unit propagation {}",
-            when,
-            if matches!(res, DecisionResult::UNSAT) { "UNSAT" } else { "no conflict" },
-            if ok { "reaches a fixpoint without conflict" } else { "falsifies a clause" }
+            matches!(res, DecisionResult::UNSAT) || ok,
+            "C09/falsified-clause-not-reported",
+            "{}: decide reported no conflict but unit propagation falsifies a clause",
+            when
         );
         if !ok {
             st.bump("chains.conflicts");
@@ -698,7 +730,7 @@ pub fn run_chains(case: &ChainCase, st: &mut Stats) -> CaseResult {
 impl SubCheckT for Chains {
     type Case = ChainCase;
     const NAME: &'static str = "long_implication_chains";
-    const RULE: &'static str = "CNFs over 8..1000 variables made of one implication chain through all variables (pseudo-random variable order and polarities, every seventh link ternary with an earlier chain literal, up to 4 binary side clauses, optionally a unit clause that starts the chain at construction and a closing clause that contradicts its end), then up to 6 decisions at random chain positions and pops: UNSAT exactly when the harness's own naive fixpoint propagator falsifies a clause; otherwise the model rebuilt from difference_iter equals that fixpoint literal for literal (unit propagation has a unique fixpoint, so this is soundness and completeness at once), is_set agrees, is_sat is the satisfied flag of the fixpoint, and pops restore hash, assigned set and flag. Non-trivial: some step implied more than 32 literals";
+    const RULE: &'static str = "CNFs over 8..1000 variables made of one implication chain through all variables (pseudo-random variable order and polarities, every seventh link ternary with an earlier chain literal, up to 4 binary side clauses, optionally a unit clause that starts the chain at construction and a closing clause that contradicts its end), then up to 6 decisions at random chain positions and pops: UNSAT whenever the harness's own naive fixpoint propagator falsifies a clause (an UNSAT or an assigned literal beyond unit propagation is accepted unless the harness's own search finds a model that contradicts it); otherwise the model rebuilt from difference_iter contains that fixpoint literal for literal, is_set agrees, is_sat is the satisfied flag of the fixpoint, and pops restore hash, assigned set and flag. Non-trivial: some step implied more than 32 literals";
     fn cases(tier: Tier) -> u32 {
         tier.pick(300, 8000)
     }
@@ -717,13 +749,376 @@ impl SubCheckT for Chains {
     }
 }
 
+// ---------------------------------------------------------------------------
+// decide / pop walks on mid-size random CNFs
+// ---------------------------------------------------------------------------
+
+#[derive(Clone, Debug, Serialize, Deserialize)]
+pub struct WalkCase {
+    pub nv: u8,
+    pub seed: u64,
+    /// clauses per variable, in tenths above 2.0
+    pub density: u8,
+    /// (pop?, variable pick, value)
+    pub ops: Vec<(bool, u16, bool)>,
+}
+
+pub struct MidWalks;
+
+/// complete search with the naive propagator; None when the node budget runs out
+fn dpll(clauses: &[Vec<Lit2>], m: &mut Vec<Option<bool>>, budget: &mut u64) -> Option<bool> {
+    if *budget == 0 {
+        return None;
+    }
+    *budget -= 1;
+    if !naive_fixpoint(clauses, m) {
+        return Some(false);
+    }
+    let open = clauses.iter().find(|c| !c.iter().any(|(v, p)| m[*v] == Some(*p))).and_then(|c| c.iter().find(|(v, _)| m[*v].is_none()));
+    let Some((v, p)) = open.copied() else {
+        return Some(true);
+    };
+    for val in [p, !p] {
+        let mut m2 = m.clone();
+        m2[v] = Some(val);
+        match dpll(clauses, &mut m2, budget) {
+            Some(true) => {
+                *m = m2;
+                return Some(true);
+            }
+            Some(false) => {}
+            None => return None,
+        }
+    }
+    Some(false)
+}
+
+pub fn walk_clauses(case: &WalkCase) -> (usize, Vec<Vec<Lit2>>) {
+    let nv = (case.nv as usize).clamp(12, 80);
+    let r = |k: u64| splitmix(case.seed ^ k.wrapping_mul(0x9E37_79B9_7F4A_7C15));
+    let m = nv * (20 + (case.density % 25) as usize) / 10;
+    let hub = (r(0xAB) as usize) % nv;
+    let mut out: Vec<Vec<Lit2>> = Vec::new();
+    for c in 0..m as u64 {
+        let x = r(c + 1);
+        let w = match x % 10 {
+            0 => 2,
+            1..=6 => 3,
+            7..=8 => 4,
+            _ => 5,
+        };
+        let mut cl: Vec<Lit2> = Vec::new();
+        let mut k = 0u64;
+        while cl.len() < w {
+            let y = splitmix(x ^ k.wrapping_mul(0xD1B5_4A32_D192_ED03));
+            k += 1;
+            let v = if cl.is_empty() && (x >> 50) % 4 == 0 { hub } else { (y as usize >> 8) % nv };
+            if cl.iter().all(|l| l.0 != v) {
+                cl.push((v, y & 1 == 1));
+            }
+        }
+        out.push(cl);
+    }
+    for wct in 0..(r(0xCD) % 4) {
+        let x = r(0x1000 + wct);
+        let w = 7 + (x % 6) as usize;
+        let perm = crate::big::permutation(x, nv);
+        out.push(perm.iter().take(w.min(nv)).enumerate().map(|(j, v)| (*v, (x >> (8 + j)) & 1 == 1)).collect());
+    }
+    if r(0xEF) % 3 == 0 {
+        out.push(vec![((r(0xF0) as usize) % nv, r(0xF1) & 1 == 1)]);
+    }
+    if !out.iter().flatten().any(|l| l.0 == nv - 1) {
+        out.push(vec![(nv - 1, true), (hub % (nv - 1), false)]);
+    }
+    (nv, out)
+}
+
+pub fn run_walk(case: &WalkCase, st: &mut Stats) -> CaseResult {
+    let (nv, gen) = walk_clauses(case);
+    let lits: Vec<Vec<Literal>> = gen.iter().map(|c| c.iter().map(|(v, p)| Literal::new(VarLabel::new_usize(*v), *p)).collect()).collect();
+    let cnf = Cnf::new(&lits);
+    let n = cnf.num_vars();
+    if n != nv {
+        return Ok(());
+    }
+    // the solver's input is the Cnf object
+    let clauses: Vec<Vec<Lit2>> = cnf.clauses().iter().map(|c| c.iter().map(|l| (l.label().value_usize(), l.polarity())).collect()).collect();
+    let taut = |c: &Vec<Lit2>| c.iter().any(|(v, p)| c.contains(&(*v, !*p)));
+    let sat_flag = |m: &[Option<bool>]| -> bool { clauses.iter().all(|c| taut(c) || c.iter().any(|(v, p)| m[*v] == Some(*p))) };
+    let residual = |m: &[Option<bool>]| -> Vec<Vec<Lit2>> {
+        let mut r: Vec<Vec<Lit2>> = clauses
+            .iter()
+            .filter(|c| !taut(c) && !c.iter().any(|(v, p)| m[*v] == Some(*p)))
+            .map(|c| c.iter().copied().filter(|(v, _)| m[*v].is_none()).collect())
+            .collect();
+        r.sort();
+        r
+    };
+    let mut ref_m: Vec<Option<bool>> = vec![None; n];
+    let ok0 = naive_fixpoint(&clauses, &mut ref_m);
+    let solver = SATSolver::new(cnf.clone());
+    if solver.is_none() && ok0 {
+        // allowed if there really is no model
+        let mut budget = 20_000u64;
+        return match dpll(&clauses, &mut ref_m.clone(), &mut budget) {
+            Some(true) => fail("C09/unsat-reported-but-satisfiable", format!("{}-variable CNF (seed {}): SATSolver::new returned UNSAT but the CNF has a model", n, case.seed)),
+            _ => {
+                st.bump("walk.unsat_beyond_unit_propagation_or_undecided");
+                Ok(())
+            }
+        };
+    }
+    ensure!(
+        solver.is_some() || !ok0,
+        "C09/falsified-clause-not-reported",
+        "{}-variable CNF (seed {}): unit propagation from the unit clauses falsifies a clause but SATSolver::new returned a solver",
+        n,
+        case.seed
+    );
+    let Some(mut s) = solver else {
+        st.bump("walk.unsat_at_construction");
+        return Ok(());
+    };
+    struct Frame {
+        model: Vec<Option<bool>>,
+        hash: u128,
+        sat: bool,
+    }
+    let mut by_hash: std::collections::HashMap<u128, (Vec<Vec<Lit2>>, usize)> = std::collections::HashMap::new();
+    let mut model: Vec<Option<bool>> = vec![None; n];
+    for l in s.difference_iter() {
+        model[l.label().value_usize()] = Some(l.polarity());
+    }
+    // compares the solver's visible state with the unit-propagation fixpoint `want`; Ok(false) = the solver knows
+    // more than unit propagation gives and all of it is entailed (allowed by the property; the case ends there)
+    let observe = |s: &SATSolver, model: &[Option<bool>], want: &[Option<bool>], decisions: &[Lit2], when: &str, st: &mut Stats| -> Result<bool, Failure> {
+        for v in 0..n {
+            ensure!(
+                s.is_set(VarLabel::new_usize(v)) == model[v].is_some(),
+                "C09/is-set-disagrees-with-reported-literals",
+                "{}: is_set(x{}) = {} but difference_iter gave {:?}",
+                when,
+                v,
+                s.is_set(VarLabel::new_usize(v)),
+                model[v]
+            );
+        }
+        let mut more = false;
+        for v in 0..n {
+            match (model[v], want[v]) {
+                (a, b) if a == b => {}
+                (None, Some(_)) => {
+                    return fail(
+                        "C09/unit-left-unpropagated",
+                        format!("{} ({} variables, seed {}): x{} is unassigned in the solver but {:?} at the fixpoint of unit propagation", when, n, case.seed, v, want[v]),
+                    )
+                }
+                (Some(a), _) => {
+                    // more than unit propagation gives, or a different value: entailed?
+                    let mut m2: Vec<Option<bool>> = vec![None; n];
+                    for (dv, db) in decisions {
+                        m2[*dv] = Some(*db);
+                    }
+                    if m2[v] == Some(!a) {
+                        return fail("C09/assigned-literal-not-entailed", format!("{}: x{} = {} contradicts a decision", when, v, a));
+                    }
+                    m2[v] = Some(!a);
+                    let mut budget = 20_000u64;
+                    match dpll(&clauses, &mut m2, &mut budget) {
+                        Some(true) => {
+                            return fail(
+                                "C09/assigned-literal-not-entailed",
+                                format!("{} ({} variables, seed {}): the solver assigned x{} = {} but CNF and decisions have a model with the opposite value", when, n, case.seed, v, a),
+                            )
+                        }
+                        Some(false) => more = true,
+                        None => {
+                            st.bump("walk.entailment_undecided_within_budget");
+                            more = true;
+                        }
+                    }
+                }
+                _ => {}
+            }
+        }
+        if more {
+            st.bump("walk.solver_knows_more_than_unit_propagation(allowed)");
+            return Ok(false);
+        }
+        ensure!(
+            s.is_sat() == sat_flag(want),
+            "C09/is-sat-flag",
+            "{}: is_sat() = {} but {} non-tautological clause has no true literal",
+            when,
+            s.is_sat(),
+            if sat_flag(want) { "no" } else { "some" }
+        );
+        Ok(true)
+    };
+    if !observe(&s, &model, &ref_m, &[], "after construction", st)? {
+        return Ok(());
+    }
+    by_hash.insert(s.cur_hash(), (residual(&model), 0));
+    let mut stack: Vec<Frame> = vec![Frame { model: model.clone(), hash: s.cur_hash(), sat: s.is_sat() }];
+    let mut decisions: Vec<Lit2> = Vec::new();
+    let (mut pops, mut decide_after_pop, mut just_popped, mut propagating, mut states) = (0u32, 0u32, false, 0u32, 1usize);
+    for (k, (pop, var, val)) in case.ops.iter().enumerate() {
+        if *pop {
+            if stack.len() < 2 {
+                continue;
+            }
+            stack.pop();
+            decisions.pop();
+            s.pop();
+            pops += 1;
+            just_popped = true;
+            let f = stack.last().unwrap();
+            ensure!(s.cur_hash() == f.hash, "C09/pop-did-not-restore-state", "op #{}: after a pop the hash differs from the one recorded before the matching decision", k);
+            for v in 0..n {
+                ensure!(
+                    s.is_set(VarLabel::new_usize(v)) == f.model[v].is_some(),
+                    "C09/pop-did-not-restore-state",
+                    "op #{}: after a pop x{} is {} but it was {} before the matching decision",
+                    k,
+                    v,
+                    if s.is_set(VarLabel::new_usize(v)) { "set" } else { "unset" },
+                    if f.model[v].is_some() { "set" } else { "unset" }
+                );
+            }
+            ensure!(s.is_sat() == f.sat, "C09/pop-did-not-restore-state", "op #{}: after a pop is_sat() differs from the recorded state", k);
+            continue;
+        }
+        let cur = stack.last().unwrap().model.clone();
+        let v = pick(*var, n);
+        if cur[v].is_some() {
+            continue;
+        }
+        let when = format!("op #{} decide x{} = {} at depth {}", k, v, val, decisions.len());
+        let mut want = cur.clone();
+        want[v] = Some(*val);
+        let ok = naive_fixpoint(&clauses, &mut want);
+        let res = s.decide(Literal::new(VarLabel::new_usize(v), *val));
+        if just_popped {
+            decide_after_pop += 1;
+            just_popped = false;
+        }
+        if matches!(res, DecisionResult::UNSAT) {
+            if ok {
+                // allowed only if CNF and decisions really have no model
+                let mut m2: Vec<Option<bool>> = vec![None; n];
+                for (dv, db) in decisions.iter() {
+                    m2[*dv] = Some(*db);
+                }
+                m2[v] = Some(*val);
+                let mut budget = 20_000u64;
+                match dpll(&clauses, &mut m2, &mut budget) {
+                    Some(true) => return fail("C09/unsat-reported-but-satisfiable", format!("{} ({} variables, seed {}): UNSAT was reported but CNF and decisions have a model", when, n, case.seed)),
+                    _ => {
+                        st.bump("walk.unsat_beyond_unit_propagation_or_undecided");
+                        return Ok(());
+                    }
+                }
+            }
+            st.bump("walk.conflicts");
+            // a failed decide pushes nothing: the visible state is the recorded one
+            let f = stack.last().unwrap();
+            ensure!(
+                s.cur_hash() == f.hash && s.is_sat() == f.sat && (0..n).all(|x| s.is_set(VarLabel::new_usize(x)) == f.model[x].is_some()),
+                "C09/state-changed-by-failed-decide",
+                "{}: a decide that reported UNSAT changed the visible state",
+                when
+            );
+            continue;
+        }
+        ensure!(
+            ok,
+            "C09/falsified-clause-not-reported",
+            "{} ({} variables, seed {}): unit propagation falsifies a clause but decide returned {}",
+            when,
+            n,
+            case.seed,
+            if matches!(res, DecisionResult::SAT) { "SAT" } else { "Unknown" }
+        );
+        let mut next = cur.clone();
+        for l in s.difference_iter() {
+            next[l.label().value_usize()] = Some(l.polarity());
+        }
+        decisions.push((v, *val));
+        if !observe(&s, &next, &want, &decisions, &when, st)? {
+            return Ok(());
+        }
+        ensure!(
+            matches!(res, DecisionResult::SAT) == s.is_sat(),
+            "C09/decision-result-vs-is-sat",
+            "{}: decide returned {} but is_sat() = {}",
+            when,
+            if matches!(res, DecisionResult::SAT) { "SAT" } else { "Unknown" },
+            s.is_sat()
+        );
+        if want.iter().filter(|x| x.is_some()).count() >= cur.iter().filter(|x| x.is_some()).count() + 3 {
+            propagating += 1;
+        }
+        let h = s.cur_hash();
+        let r = residual(&next);
+        match by_hash.get(&h) {
+            Some((r0, k0)) => ensure!(
+                *r0 == r,
+                "C09/equal-hash-different-residual",
+                "{} ({} variables, {} clauses, seed {}): same hash {} as the state after op #{} but the residual formulas differ ({} vs {} open clauses)",
+                when,
+                n,
+                clauses.len(),
+                case.seed,
+                h,
+                k0,
+                r.len(),
+                r0.len()
+            ),
+            None => {
+                by_hash.insert(h, (r, k + 1));
+                states += 1;
+            }
+        }
+        stack.push(Frame { model: next, hash: h, sat: s.is_sat() });
+    }
+    st.add("walk.distinct_hashed_states", states as u64);
+    st.flag("walk.decide_after_pop", decide_after_pop > 0);
+    if pops >= 1 && decide_after_pop >= 1 && propagating >= 2 {
+        st.mark_nontrivial();
+    }
+    Ok(())
+}
+
+impl SubCheckT for MidWalks {
+    type Case = WalkCase;
+    const NAME: &'static str = "midsize_walks";
+    const RULE: &'static str = "random CNFs over 12..80 variables with 2.0..4.4 clauses per variable (widths 2..5, a quarter of the clauses through one hub variable, up to three clauses of 7..12 literals, sometimes a unit clause), then up to 40 decide / pop steps (decisions on unassigned variables, pops only above the initial state, decisions after pops): UNSAT exactly when the harness's naive unit propagation falsifies a clause (an UNSAT or an assigned literal beyond unit propagation is accepted if the harness's own complete search confirms it, and ends the case); otherwise the model rebuilt from difference_iter is the propagation fixpoint, is_set agrees, is_sat and the decision result equal the satisfied flag, a failed decide leaves the state unchanged, pops restore hash / assigned set / flag, and over all states of a case equal hashes imply identical residual formulas. Non-trivial: a pop, a decision after a pop and two decisions that each implied at least two further literals";
+    fn cases(tier: Tier) -> u32 {
+        tier.pick(1500, 40_000)
+    }
+    fn strategy(_tier: Tier) -> BoxedStrategy<WalkCase> {
+        (
+            prop_oneof![1 => 12u8..=19, 4 => 20u8..=60, 1 => 61u8..=80],
+            any::<u64>(),
+            any::<u8>(),
+            proptest::collection::vec((proptest::bool::weighted(0.3), any::<u16>(), any::<bool>()), 4..=40),
+        )
+            .prop_map(|(nv, seed, density, ops)| WalkCase { nv, seed, density, ops })
+            .boxed()
+    }
+    fn run(case: &WalkCase, st: &mut Stats) -> CaseResult {
+        run_walk(case, st)
+    }
+}
+
 pub fn property() -> Property {
     Property {
         id: "C09",
-        subs: vec![sub::<History>(), sub::<Chains>()],
+        subs: vec![sub::<History>(), sub::<Chains>(), sub::<MidWalks>()],
         fuzz: vec![FuzzSpec { target: "sat_history", runs: 12000, max_len: 300 }],
         assumptions: vec![
-            "truth-table part: CNFs over <= 6 variables, <= 10 clauses, histories of <= 40 decide/pop; sub-check long_implication_chains: up to 1000 variables, oracle = the harness's naive unit propagation (the library recurses once per implied literal: chains are capped at 1000 links so that its recursion stays within an 8 MB stack)",
+            "truth-table part: CNFs over <= 6 variables, <= 10 clauses, histories of <= 40 decide/pop; sub-check long_implication_chains: up to 1000 variables, oracle = the harness's naive unit propagation (the library recurses once per implied literal: chains are capped at 1000 links so that its recursion stays within an 8 MB stack); sub-check midsize_walks: 12..80 variables, same oracle plus the harness's own complete search where the solver claims more than unit propagation gives",
             "pop is only issued after a successful decide (the API forbids popping the initial state)",
             "hash => residual is asserted for every pair of visited states; beyond 26 literal occurrences the product of per-occurrence primes can wrap around 2^128, and a collision there (probability about 2^-127 per pair) would be reported as a violation, as the property states no limit",
             "the partial model is reconstructed from difference_iter (no hook needed) and cross-checked with is_set",
